@@ -80,10 +80,18 @@ impl CharScorerBoundaryTag {
             let weight = PositionalWeightWithTag::with_boundary(-word_len, d.weights);
             merger.add(d.word, weight);
         }
-        let mut tag_weight = vec![
-            vec![SerializableHashMap::default(); usize::from(window_size) + 1];
-            tag_ngram_model.len()
-        ];
+        // Tag n-grams may refer to positions beyond the window (the trainer emits relative
+        // positions up to the n-gram size), so the tables cover the largest position in use.
+        let n_positions = tag_ngram_model
+            .iter()
+            .flat_map(|m| &m.0)
+            .flat_map(|d| &d.weights)
+            .map(|w| usize::from(w.rel_position) + 1)
+            .max()
+            .unwrap_or(0)
+            .max(usize::from(window_size) + 1);
+        let mut tag_weight =
+            vec![vec![SerializableHashMap::default(); n_positions]; tag_ngram_model.len()];
         for (i, tag_model) in tag_ngram_model.into_iter().enumerate() {
             for d in tag_model.0 {
                 for w in d.weights {
